@@ -33,9 +33,10 @@ import (
 )
 
 type mtCase struct {
-	Name  string `json:"name"`
-	Kind  string `json:"kind"` // intrude, impostor
-	Proto string `json:"proto"`
+	Name     string `json:"name"`
+	Kind     string `json:"kind"`               // intrude, impostor
+	Impostor string `json:"impostor,omitempty"` // othercert (default), nocert
+	Proto    string `json:"proto"`
 }
 
 type mtAttempt struct {
@@ -179,7 +180,11 @@ func runMTLSCase(c mtCase, bin, tmp string) map[string]interface{} {
 	hc := &vp.HostCfg{LegacyVersion: 1, Legacy: &vp.SetCfg{Proto: "grpc", Tag: "1"}, Allowed: []string{"netrpc", "grpc"}, Mux: mux, TLS: "auto"}
 	var extra []string
 	if c.Kind == "impostor" {
-		extra = append(extra, "VPLUGIN_IMPOSTOR=1")
+		mode := "1" // announces one certificate, serves with another
+		if c.Impostor == "nocert" {
+			mode = "nocert" // announces no certificate, serves in plaintext
+		}
+		extra = append(extra, "VPLUGIN_IMPOSTOR="+mode)
 	}
 	p := vp.NewPair(bin, hc, pc, extra, nil)
 	defer p.Client.Kill()
@@ -291,6 +296,10 @@ func TestMTLSCases(t *testing.T) {
 		cw.begin(c.Name)
 		o := runMTLSCase(c, bin, tmp)
 		cw.end(c.Name)
-		ow.write(map[string]interface{}{"name": c.Name, "kind": c.Kind, "proto": c.Proto, "out": o})
+		imp := c.Impostor
+		if imp == "" {
+			imp = "othercert"
+		}
+		ow.write(map[string]interface{}{"name": c.Name, "kind": c.Kind, "impostor": imp, "proto": c.Proto, "out": o})
 	})
 }
